@@ -13,7 +13,7 @@ def engine_run(pid, eng, tier, seed, tmp, replay_inputs=None):
     """returns dict(stats, mismatches, n_mismatch, samples, violations, error)"""
     res = {"engine": eng["bin"], "groups": eng.get("groups"), "stats": None, "mismatches": [], "n_mismatch": 0,
            "samples": [], "violations": [], "error": None}
-    ok, exe, out = core.go_build(eng["bin"])
+    ok, exe, out = core.go_build(eng["bin"], eng.get("harness_dir"))
     if not ok:
         res["error"] = {"kind": "harness-build", "msg": out[-3000:]}
         return res
@@ -103,6 +103,10 @@ def main(argv=None):
     ext = core.run_extractor()
     if ext.get("error"):
         problems.append({"kind": "extractor", "detail": ext["error"]})
+    for pre in cfg.get("pre", []):
+        rc, pout = core.run_pre(pre)
+        if rc != 0:
+            problems.append({"kind": "pre-obligation", "name": pre.get("name", pre["cmd"][0]), "detail": pout[-2500:]})
     modules = cfg["lean"]
     drivers = sorted({e.get("model_exe", "ibcmodel") for e in cfg.get("engines", [])})
     ok, broken, out = core.lean_build(modules, drivers)
